@@ -335,6 +335,11 @@ func runSess(cfg *config) {
 			d.exec("INSERT INTO t1 VALUES (2, 'two')")
 			d.exec("USE plain")
 		}
+		// the empty name is no database
+		d.exec("CREATE DATABASE \"\"")
+		d.exec("USE \"\"")
+		d.exec("INSERT INTO t1 VALUES (3, 'three')")
+		d.exec("SHOW DATABASES")
 		d.exec("CREATE DATABASE \"" + strings.Repeat("m", 255) + "\"")
 		d.exec("SHOW DATABASES")
 	}, nil)
